@@ -10,16 +10,31 @@ import (
 func init() {
 	verifRegister("VerifC42Steps", VerifC42Steps)
 	verifRegister("VerifC42Racy", VerifC42Racy)
+	verifRegister("VerifC42Hooked", VerifC42Hooked)
 }
 
 type verifCtx struct {
-	done chan struct{}
-	err  error
+	done   chan struct{}
+	err    error
+	onErr  func() // runs once inside Err(): Acquire calls ctx.Err() right after waking on Done and before re-taking the mutex
+	onDone func() // runs once inside Done(): Acquire evaluates ctx.Done() right after queueing itself and releasing the mutex
 }
 
 func (c *verifCtx) Deadline() (time.Time, bool) { return time.Time{}, false }
-func (c *verifCtx) Done() <-chan struct{}       { return c.done }
-func (c *verifCtx) Err() error                  { return c.err }
+func (c *verifCtx) Done() <-chan struct{} {
+	if f := c.onDone; f != nil {
+		c.onDone = nil
+		f()
+	}
+	return c.done
+}
+func (c *verifCtx) Err() error {
+	if f := c.onErr; f != nil {
+		c.onErr = nil
+		f()
+	}
+	return c.err
+}
 func (c *verifCtx) Value(any) any               { return nil }
 func (c *verifCtx) cancel()                     { c.err = context.Canceled; close(c.done) }
 
@@ -186,4 +201,51 @@ func VerifC42Racy() {
 	verifCover("raced")
 	verifC42Quiescent(s, "racy")
 	verifC42Account(s, ws, base, "racy")
+}
+
+// VerifC42Hooked: the race between a cancellation and a Release/SetSize made DETERMINISTIC (so that it also replays natively):
+// the harness context runs the competing operation from inside ctx.Err() (called by Acquire after it woke on Done and before
+// it re-takes the mutex) or from inside ctx.Done() (evaluated right after the waiter queued itself and dropped the mutex).
+func VerifC42Hooked() {
+	size0 := verifWeight()
+	forced := verifWeight()
+	s := NewWeighted(size0)
+	s.ForceAcquire(forced)
+	base := forced
+	op := func() {
+		if verifBool() {
+			n := verifWeight()
+			verifAssume(n <= base)
+			s.Release(n)
+			base -= n
+		} else {
+			s.SetSize(verifWeight())
+		}
+	}
+	W := verifParam("W", 2)
+	var ws []*verifWaiter
+	hooked := verifChoice(W)
+	atErr := verifBool()
+	for i := 0; i < W; i++ {
+		w := &verifWaiter{n: verifWeight(), ctx: &verifCtx{done: make(chan struct{})}}
+		if i == hooked {
+			if atErr {
+				w.ctx.onErr = op
+			} else {
+				w.ctx.onDone = op
+			}
+		}
+		ws = append(ws, w)
+		go func() {
+			w.err = s.Acquire(w.ctx, w.n)
+			w.returned = true
+		}()
+		verifSettle() // queue order = creation order
+	}
+	ws[hooked].canceled = true
+	ws[hooked].ctx.cancel()
+	verifSettle()
+	verifCover("hooked")
+	verifC42Quiescent(s, "hooked")
+	verifC42Account(s, ws, base, "hooked")
 }
